@@ -104,6 +104,7 @@ func (l *layerYZ) Evaluate(s sdf.SDF3, x int) {
 			if len(eReq.p) == batchSize {
 				eReq.wg.Add(1)
 				evalProcessCh <- eReq
+				simYield("render.layerYZ.sent", 0)
 				eReq.out = eReq.out[batchSize:]       // shift the output slice for processing
 				eReq.p = make([]v3.Vec, 0, batchSize) // create a new slice for the next batch
 			}
@@ -116,6 +117,7 @@ func (l *layerYZ) Evaluate(s sdf.SDF3, x int) {
 	if len(eReq.p) > 0 {
 		eReq.wg.Add(1)
 		evalProcessCh <- eReq
+		simYield("render.layerYZ.sent", 1)
 	}
 
 	// Wait for all processing to complete before returning
